@@ -426,13 +426,14 @@ func drawWireOps(t *rapid.T, tableLen int) []wire.Op {
 		case 3:
 			codes := []int{0, 1, 2}
 			if c10Invalid {
-				codes = []int{0, 1, 2, 3, 1 << 20}
+				// unknown kinds, including values that are negative as 32-bit enums (-1, MinInt32)
+				codes = []int{0, 1, 2, 3, 1 << 20, -1, -2147483648, 1<<32 - 1, 1 << 31}
 			}
 			ops = append(ops, wire.Op{Kind: 2, Code: uint64(rapid.SampledFrom(codes).Draw(t, "wo.un"))})
 		case 4, 5:
 			codes := []int{0, 1, 2, 3, 4, 5, 6, 7, 8, 9, 10, 11, 12, 13, 14, 15, 16, 4, 5, 15, 16}
 			if c10Invalid {
-				codes = append(codes, 17, 1<<20)
+				codes = append(codes, 17, 1<<20, -1, -2147483648, 1<<32-1, 1<<31, -17)
 			}
 			ops = append(ops, wire.Op{Kind: 3, Code: uint64(rapid.SampledFrom(codes).Draw(t, "wo.bin"))})
 		default:
